@@ -35,12 +35,21 @@ CX_OPS = ['customize(min_occurs=1)', 'customize(sub_name)', 'child_attrs(x)', 'c
           'subclass', 'append_field', 'insert_field']
 
 
+_SUBCOUNT = [0]
+
+
+def _next_sub():
+    _SUBCOUNT[0] += 1
+    return _SUBCOUNT[0]
+
+
 def fresh_pool(cfg='full'):
     """[(label, model)] seed pool on fresh classes.  cfg 'cx': complex models only (deeper histories of the
     customize / child_attrs / append_field / insert_field interplay)"""
     from spyne.model.primitive import Unicode, Integer, Decimal
     from spyne.model.binary import ByteArray
     from spyne.model.complex import ComplexModel, ComplexModelMeta, Array
+    _SUBCOUNT[0] = 0
     A = ComplexModelMeta('A', (ComplexModel,), {'__namespace__': 'urn:vf:c15', '_type_info': [('x', Integer), ('s', Unicode)]})
     B = ComplexModelMeta('B', (A,), {'__namespace__': 'urn:vf:c15', '_type_info': [('y', Integer)]})
     if cfg == 'cx':
@@ -97,7 +106,7 @@ def operations(tier, cfg='full'):
     op('Array(T,wrapped=False)', lambda m: True, lambda m: Array(m, wrapped=False), None)
     op('Mandatory(T)', lambda m: True, lambda m: Mandatory(m), None)
     op('subclass', lambda m: is_complex(m) and getattr(m, '__orig__', None) is None,   # (documented: no inheriting from a customized class)
-       lambda m: ComplexModelMeta('Sub' + m.__name__, (m,), {'__namespace__': 'urn:vf:c15', '_type_info': [('sub_f', Integer)]}), None)
+       lambda m: ComplexModelMeta('Sub%d%s' % (_next_sub(), m.__name__), (m,), {'__namespace__': 'urn:vf:c15', '_type_info': [('sub_f', Integer)]}), None)
     op('append_field', lambda m: is_complex(m) and 'n1' not in m.get_flat_type_info(m), lambda m: (m.append_field('n1', Integer), m)[1], None, kind='evolve')
     op('insert_field', lambda m: is_complex(m) and 'n0' not in m.get_flat_type_info(m), lambda m: (m.insert_field(0, 'n0', Unicode), m)[1], None, kind='evolve')
     if tier == 'thorough':
@@ -180,23 +189,41 @@ def alias_partition(pool):
     return sorted(tuple(v) for v in groups.values() if len(v) > 1)
 
 
-def schema_of(history, tier):
-    """rendered schema of the pool's complex models, on a throw-away replay (rendering resolves namespaces and names
-    anonymous types, i.e. mutates classes)"""
+_SCHEMA_MEMO = {}
+
+
+def schema_snaps(history, tier, cfg='full'):
+    """rendered XML Schema of every complex / array model of the pool, each rendered on its own, on a THROW-AWAY replay of
+    the history (rendering resolves namespaces and names anonymous types, i.e. touches the classes).  -> {pool index:
+    canonical text}"""
+    key = (json.dumps(history), tier, cfg)
+    if key in _SCHEMA_MEMO:
+        return _SCHEMA_MEMO[key]
     from spyne.util.xml import get_schema_documents
     from lxml import etree
-    pool = replay_history(history, tier)
-    if pool is None:
-        return None
-    cms = [m for lab, m in pool if is_complex(m)]
-    try:
-        docs = get_schema_documents(cms, default_namespace='urn:vf:c15')
-    except Exception as e:
-        return 'ERR:%s' % type(e).__name__
+    pool = replay_history(history, tier, None, cfg)
     out = {}
-    for k in sorted(docs):
-        for ct in docs[k].iter('{http://www.w3.org/2001/XMLSchema}complexType'):
-            out[ct.get('name')] = [e.get('name') for e in ct.iter('{http://www.w3.org/2001/XMLSchema}element')]
+    if pool is not None:
+        for i, (lab, m) in enumerate(pool):
+            if not (is_complex(m) or is_array(m)):
+                continue
+            try:
+                docs = get_schema_documents([m], default_namespace='urn:vf:c15')
+                # (the order of the type definitions inside a schema document is not part of this property: sorted by name)
+                # and only the model's own definition: which other types share the document (known subclasses, ...) is not
+                # an attribute of this model
+                own = m.get_type_name()
+                cts = sorted(((ct.get('name') or '', etree.tostring(ct, method='c14n').decode('utf8'), ct) for k in sorted(docs) for ct in docs[k]
+                              if ct.get('name') == own), key=lambda x: x[:2])
+                out[i] = hashlib.sha1('\n'.join(x[1] for x in cts).encode('utf8')).hexdigest()[:12] + '|' + ' '.join(
+                    '%s(%s)' % (ct.get('name'), ','.join('%s:%s:%s:%s' % (e.get('name'), e.get('type'), e.get('minOccurs', '1'), e.get('nillable', '-'))
+                                                          for e in ct.iter('{http://www.w3.org/2001/XMLSchema}element')))
+                    for n_, c_, ct in cts if ct.tag == '{http://www.w3.org/2001/XMLSchema}complexType')
+            except Exception as e:
+                out[i] = 'ERR:%s' % type(e).__name__
+    if len(_SCHEMA_MEMO) > 20000:
+        _SCHEMA_MEMO.clear()
+    _SCHEMA_MEMO[key] = out
     return out
 
 
@@ -336,6 +363,10 @@ def check_transition(hist, opdesc, idx, before_pool_snap, pool_before_len, pool,
     if o['kind'] == 'evolve':
         check_evolve(hist, o, idx, pool, cfg, V)
     after = [snapshot(m, pool) for lab, m in pool]
+    sch_b, sch_a = schema_snaps(hist[:-1], tier, cfg), schema_snaps(hist, tier, cfg)
+    for i in range(pool_before_len):
+        before_pool_snap[i] = dict(before_pool_snap[i], schema=sch_b.get(i))
+        after[i] = dict(after[i], schema=sch_a.get(i))
     target = pool[idx][1]
     for i in range(pool_before_len):
         if before_pool_snap[i] == after[i]:
@@ -354,6 +385,8 @@ def check_transition(hist, opdesc, idx, before_pool_snap, pool_before_len, pool,
             d = ', '.join('%s: %s -> %s' % (k, b_.get(k), a_.get(k)) for k in sorted(set(b_) | set(a_)) if b_.get(k) != a_.get(k))[:200]
         elif 'flat' in changed or 'own' in changed:
             d = 'fields %s -> %s' % (before_pool_snap[i].get('own'), after[i].get('own'))
+        elif 'schema' in changed:
+            d = 'rendered schema %s -> %s' % (before_pool_snap[i].get('schema'), after[i].get('schema'))
         V('frame', 'operand=%s|changed=%s:%s' % (kind_of_model(target), kind_of_model(m), '+'.join(sorted(changed))),
           'applying it to %s changed the existing model %s (%s)' % (pool[idx][0], lab, d or changed))
     if o['kind'] == 'derive':
@@ -414,11 +447,12 @@ def run_shard(shard, only=None):
         env['PYTHONHASHSEED'] = shard['seed']
         env['VF_ENV_READY'] = '1'
         code = 'import logging;logging.disable(50);import warnings;warnings.simplefilter("ignore");from vf.props import c15;import json;print(json.dumps(c15.state_digest(%r, %d)))' % (tier, shard['depth'])
-        p = subprocess.run([sys.executable, '-c', code], env=env, stdout=subprocess.PIPE, stderr=subprocess.PIPE, text=True)
-        if p.returncode != 0:
-            raise RuntimeError('hash-seed sub-process failed: %s' % p.stderr[-500:])
-        theirs = json.loads(p.stdout.strip().splitlines()[-1])
+        p = subprocess.Popen([sys.executable, '-c', code], env=env, stdout=subprocess.PIPE, stderr=subprocess.PIPE, text=True)
         ours = state_digest(tier, shard['depth'])
+        so, se = p.communicate()
+        if p.returncode != 0:
+            raise RuntimeError('hash-seed sub-process failed: %s' % se[-500:])
+        theirs = json.loads(so.strip().splitlines()[-1])
         res['evaluations'] += 1
         res['cov']['hash_seed_processes'] = 1
         if theirs != ours:
@@ -467,7 +501,7 @@ def run_shard(shard, only=None):
         res['cov']['histories'] += 1
         if only is None or h2 == only:
             check_transition(h2, o, idx, before, n_before, pool, res, shard, tier, None, cfg)
-        k = canon(pool)
+        k = canon(pool) + hashlib.sha1(json.dumps(schema_snaps(h2, tier, cfg), sort_keys=True).encode()).hexdigest()[:10]
         if k not in seen:
             seen.add(k)
             res['sets']['canonical_states'].append(k)
@@ -496,7 +530,7 @@ def state_digest(tier, depth):
         if pool is None:
             continue
         if hist:
-            out[json.dumps(hist)] = canon_stable(pool)
+            out[json.dumps(hist)] = canon_stable(pool) + hashlib.sha1(json.dumps(schema_snaps(hist, tier), sort_keys=True).encode()).hexdigest()[:10]
         if len(hist) < depth and len(hist) < 1 + (depth > 1) * 1:
             for o2 in oplist:
                 for j in range(len(pool)):
